@@ -66,6 +66,8 @@ HooksN(q) == { HookMsgs("e2", << DpM(q, "u2", "u1", D1, 2, "d1") >>),
                HookMsgs("e2", << DpM(q + 1, "u2", "opchild", D1, 1, "d1") >>),
                HookMsgs("e2", << DpM(q + 1, "u2", "u3", D1, 1, "d1"), [kind |-> "send", to |-> "panic", denom |-> D1, amt |-> 1] >>),
                HookMsgs("e2", << DpM(q + 1, "u2", "u3", D1, 1, "d1"), DpM(q + 1, "u2", "u3", D1, 1, "d1"), DpM(q + 2, "u1", "u3", D2, 1, "d2") >>) }
+Queries == {[type |-> "Query", q |-> q, denom |-> ""] : q \in {"NextL1Sequence", "NextL2Sequence", "BridgeInfo", "Params"}}
+           \cup {[type |-> "Query", q |-> "BaseDenom", denom |-> d] : d \in {D1, D2, N1}}
 Faults == {"none", "mintErr", "mintPanic", "sendErr", "sendPanic"}
 DepositEvents(s) ==
   LET q == s.seqL1 IN
@@ -86,6 +88,7 @@ DepositEvents(s) ==
   \cup (IF s.params.hookGas = "ample" /\ q = 1 THEN {Upd("opchild", [s.params EXCEPT !.hookGas = g]) : g \in {"tiny", "zero"}} ELSE {})
   \cup {Send("u1", "u3", D1, 1)}
   \cup {[type |-> "ExportImport"]}
+  \cup Queries
 
 Signers == {"opchild", "adm", "e1", "e2", "x"}
 Info(id, addr, chain, client) == [id |-> id, addr |-> addr, chain |-> chain, client |-> client, oracle |-> FALSE, cfgOK |-> TRUE]
@@ -104,6 +107,7 @@ AuthEvents(s) ==
                    << Upd("opchild", [s.params EXCEPT !.admin = "x"]) >>,
                    << Upd("adm", [s.params EXCEPT !.admin = "x"]) >>,
                    << >> }}
+  \cup Queries
 
 Events(s) ==
   CASE Fam = "relay"   -> RelayEvents(s)
